@@ -322,6 +322,8 @@ func (w *world) runScenario(sc *Scenario) {
 		clean    bool // no decrypt ops, no violation other than D10
 		d10      bool
 		complete bool
+		missed   bool // a non-D10 missed fire was reported
+		hasDec   bool
 	}
 	var finals []final
 	effStart := sc.Start + 1
@@ -695,7 +697,7 @@ func (w *world) runScenario(sc *Scenario) {
 					run.Violate(vh.Violation{Key: "C16:missed-fire", What: "a matching log in the window of a registered, not decrypted trigger did not fire it",
 						Case: trunc(oi), Observed: postFired, Expected: wp})
 					fin.clean = false
-					violated = true
+					fin.missed = true // the run goes on: its final fired set is compared with the other runs'
 				}
 			}
 			if violated {
@@ -711,6 +713,7 @@ func (w *world) runScenario(sc *Scenario) {
 		}
 		if hasDec {
 			fin.clean = false
+			fin.hasDec = true
 		}
 		_ = lastHead
 		run.Dist[fmt.Sprintf("run:range=%d", min(int(rn.Range), 11))]++
@@ -723,7 +726,7 @@ func (w *world) runScenario(sc *Scenario) {
 	var ref *final
 	for i := range finals {
 		f := &finals[i]
-		if !f.complete || !f.clean {
+		if !f.complete || f.hasDec || (!f.clean && !f.missed) {
 			continue
 		}
 		if ref == nil {
@@ -739,7 +742,7 @@ func (w *world) runScenario(sc *Scenario) {
 		}
 		if !same {
 			key := "C16:batching-dependent"
-			if ref.d10 || f.d10 {
+			if (ref.d10 || f.d10) && !ref.missed && !f.missed {
 				key = d10Key
 			}
 			run.Violate(vh.Violation{Key: key, What: "the same chain gives different fired sets under different partitions of the head sequence / range limits", Case: sc,
@@ -778,6 +781,7 @@ type gen struct {
 	keys   []map[string]bool
 	nregs  int
 	fresh  int
+	seen   []syncrig.Ev // admissible registrations generated so far (any branch)
 }
 
 func (g *gen) ancestorAt(id int, num uint64) int {
@@ -826,6 +830,21 @@ func (g *gen) addBlock(parent int, salt uint64, pending *[]syncrig.Item) int {
 		}
 		g.fresh++
 		e := syncrig.Ev{Eon: uint64(r.Intn(2)), P: uint8(g.fresh % 250), S: uint8(1 + g.fresh/250), Def: r.Intn(len(g.sc.Defs))}
+		// one sender registering several triggers: same eon and identity prefix with another definition
+		// (a different identity), and the controls: same definition with a fresh prefix (the default
+		// above), another sender with the same prefix
+		if len(g.seen) > 0 {
+			switch r.Intn(5) {
+			case 0, 1:
+				o := g.seen[r.Intn(len(g.seen))]
+				e.Eon, e.P, e.S = o.Eon, o.P, o.S
+				e.Def = (o.Def + 1 + r.Intn(len(g.sc.Defs)-1)) % len(g.sc.Defs)
+			case 2:
+				o := g.seen[r.Intn(len(g.seen))]
+				e.Eon, e.P, e.Def = o.Eon, o.P, o.Def
+				e.S = o.S + 100
+			}
+		}
 		// expiry at every relative offset: this block, next, a few later, far, (rarely) already past
 		switch r.Intn(8) {
 		case 0:
@@ -860,6 +879,7 @@ func (g *gen) addBlock(parent int, salt uint64, pending *[]syncrig.Item) int {
 				continue
 			}
 			keys[regKey(&e)] = true
+			g.seen = append(g.seen, e)
 		}
 		add(syncrig.Item{Ev: &e})
 	}
@@ -1043,6 +1063,34 @@ func forcedScenarios() []*Scenario {
 	}
 	sc.Runs = []Run{{Range: 1, Ops: []Op{{Head: 3}, {Head: 4}, {Head: 5}, {Head: 7}}}, {Range: 10_000, Ops: []Op{{Head: 3}, {Head: 4}, {Head: 5}, {Head: 7}}}}
 	out = append(out, sc)
+	// one sender, one eon, one identity prefix, two definitions (two identities): a log that matches
+	// both in one block, and logs that match them in different blocks of one jump; controls: same
+	// definition with another prefix, another sender with the same prefix (seed C16d)
+	{
+		d2 := []DefSpec{{A: 1, T: -1, Gte: -1}, {A: 1, T: 0, Gte: -1}}
+		regS := func(p, snd uint8, def int) syncrig.Item {
+			return syncrig.Item{Ev: &syncrig.Ev{Eon: 1, P: p, S: snd, Def: def, Exp: 100}}
+		}
+		sc := &Scenario{Start: 0, Depth: 10, Defs: d2, Note: "two triggers of one sender with the same prefix and different definitions, one log matches both"}
+		sc.Blocks = []syncrig.BlockSpec{
+			{Parent: 0, Items: []syncrig.Item{regS(1, 1, 0), regS(1, 1, 1), regS(2, 1, 0), regS(1, 2, 1)}}, // 1
+			{Parent: 1, Count: 1},                              // 2
+			{Parent: 2, Items: []syncrig.Item{lg(1, 0, 0)}},    // 3: matches both definitions
+			{Parent: 3, Count: 1},                              // 4
+		}
+		sc.Runs = []Run{{Range: 1, Ops: []Op{{Head: 1}, {Head: 2}, {Head: 3}, {Head: 4}}}, {Range: 10_000, Ops: []Op{{Head: 1}, {Head: 4}}}, {Range: 2, Ops: []Op{{Head: 1}, {Head: 4}}}}
+		out = append(out, sc)
+		sc = &Scenario{Start: 0, Depth: 10, Defs: d2, Note: "two triggers of one sender with the same prefix: their logs lie in different blocks, one range or two"}
+		sc.Blocks = []syncrig.BlockSpec{
+			{Parent: 0, Items: []syncrig.Item{regS(1, 1, 0), regS(1, 1, 1), regS(2, 1, 1)}}, // 1
+			{Parent: 1, Items: []syncrig.Item{lg(1, 1, 0)}},                 // 2: matches definition 0 only
+			{Parent: 2, Items: []syncrig.Item{lg(1, 0, 0), lg(1, 0, 0)}},    // 3: two logs in one block matching definition 1 (and 0)
+			{Parent: 3, Count: 2},                                           // 4, 5
+		}
+		sc.Runs = []Run{{Range: 1, Ops: []Op{{Head: 1}, {Head: 5}}}, {Range: 10_000, Ops: []Op{{Head: 1}, {Head: 5}}}, {Range: 2, Ops: []Op{{Head: 1}, {Head: 5}}},
+			{Range: 3, Ops: []Op{{Head: 1}, {Head: 2}, {Head: 5}}}}
+		out = append(out, sc)
+	}
 	// unsigned predicates on full words (18-decimal token amounts): 20 tokens against thresholds of 2,
 	// 10 and 30 tokens, 2^64 and its neighbours, on a static data word and on the second topic
 	{
